@@ -415,10 +415,10 @@ def cc_location(has_lat: bool, lat: int, has_lon: bool, has_prec: bool, prec: in
 
 def cc_ordered_times(cls_i: int, has_a: bool, a: int, has_b: bool, b: int) -> bool:
     """
-    pre: 0 <= cls_i <= 5 and a > 0 and b > 0
+    pre: 0 <= cls_i <= 7 and a > 0 and b > 0
     post: _
     """
-    cls_i = pick(cls_i, 6)
+    cls_i = pick(cls_i, 8)
     cls, pa, pb, strict, extra = [
         (stix2.v21.Campaign, "first_seen", "last_seen", False, {}),
         (stix2.v21.IntrusionSet, "first_seen", "last_seen", False, {}),
@@ -426,6 +426,8 @@ def cc_ordered_times(cls_i: int, has_a: bool, a: int, has_b: bool, b: int) -> bo
         (stix2.v21.Sighting, "first_seen", "last_seen", False, {}),
         (stix2.v21.ThreatActor, "first_seen", "last_seen", False, {}),
         (stix2.v21.Malware, "first_seen", "last_seen", False, {"is_family": False}),
+        (stix2.v21.Infrastructure, "first_seen", "last_seen", False, {}),
+        (stix2.v21.Relationship, "start_time", "stop_time", True, {}),          # stop_time MUST be later than start_time
     ][cls_i]
     inner = dict({"type": cls._type, "id": cls._type + "--x"}, **extra)
     if has_a:
@@ -592,3 +594,75 @@ def run_corrupt_case(ci, ji):
     except specmodel.Invalid:
         return False
     return True
+
+
+# ---------------------------------------------------------------- c'. presence-only co-constraints, table driven (symbolic presence flags)
+def _x509_21_list():
+    return ['is_self_signed', 'hashes', 'version', 'serial_number', 'signature_algorithm', 'issuer']
+
+
+PRESENCE = [
+    # (class, fixed inner, [(property, value)...] (at most 6), oracle over the set of present names) -- oracles quote the specification sentence
+    (stix2.v21.ExternalReference, {"source_name": "s"}, [("description", "d"), ("external_id", "e"), ("url", "u")],
+     lambda p: bool(p)),                                  # "at least one of the description, url, or external_id properties MUST be present"
+    (stix2.v20.ExternalReference, {"source_name": "s"}, [("description", "d"), ("external_id", "e"), ("url", "u")], lambda p: bool(p)),
+    (stix2.v21.GranularMarking, {"selectors": ["a"]}, [("lang", "en"), ("marking_ref", "marking-definition--x")],
+     lambda p: len(p) == 1),                              # "exactly one of the lang or marking_ref properties MUST be present"
+    (stix2.v21.EmailMIMEComponent, {}, [("body", "b"), ("body_raw_ref", "artifact--x"), ("content_type", "t")],
+     lambda p: "body" in p or "body_raw_ref" in p),       # "one of body OR body_raw_ref MUST be included"
+    (stix2.v20.EmailMIMEComponent, {}, [("body", "b"), ("body_raw_ref", "1"), ("content_type", "t")], lambda p: "body" in p or "body_raw_ref" in p),
+    (stix2.v20.File, {"type": "file"}, [("hashes", {"MD5": "0" * 32}), ("name", "n"), ("is_encrypted", True), ("encryption_algorithm", "aes"),
+                                        ("decryption_key", "k")],
+     lambda p: ("hashes" in p or "name" in p) and (not ({"encryption_algorithm", "decryption_key"} & p) or "is_encrypted" in p)),
+    (stix2.v20.NetworkTraffic, {"type": "network-traffic", "protocols": ["tcp"]}, [("src_ref", "0"), ("dst_ref", "1"), ("src_port", 1)],
+     lambda p: "src_ref" in p or "dst_ref" in p),
+    (stix2.v21.MalwareAnalysis, {"type": "malware-analysis", "id": "malware-analysis--x", "product": "p"},
+     [("result", "benign"), ("analysis_sco_refs", ["file--x"]), ("version", "1")],
+     lambda p: "result" in p or "analysis_sco_refs" in p),   # "one of result or analysis_sco_refs properties MUST be provided"
+    (stix2.v21.X509Certificate, {"type": "x509-certificate", "id": "x509-certificate--x"},
+     [("is_self_signed", False), ("serial_number", "1"), ("issuer", "i"), ("subject", "s"), ("defanged", True)],
+     lambda p: bool(p - {"defanged"})),                   # "at least one of the properties defined below MUST be included"
+    (stix2.v21.WindowsRegistryValueType, {}, [("name", ""), ("data", "d"), ("data_type", "REG_SZ")], lambda p: bool(p)),
+    (stix2.v21.X509V3ExtensionsType, {}, [("basic_constraints", "b"), ("key_usage", "k")], lambda p: bool(p)),
+    (stix2.v21.WindowsPEOptionalHeaderType, {}, [("magic_hex", "0a"), ("size_of_code", 0)], lambda p: bool(p)),
+    (stix2.v21.Process, {"type": "process", "id": "process--x"}, [("pid", 0), ("cwd", ""), ("is_hidden", False), ("defanged", True)],
+     lambda p: bool(p - {"defanged"})),                   # "a Process object MUST contain at least one property (other than type) from this object"
+    (stix2.v20.Process, {"type": "process"}, [("pid", 0), ("cwd", ""), ("is_hidden", False)], lambda p: bool(p)),
+]
+NPRES = len(PRESENCE)
+
+
+def cc_presence(ti: int, f0: bool, f1: bool, f2: bool, f3: bool, f4: bool) -> bool:
+    """
+    pre: 0 <= ti < NPRES
+    post: _
+    """
+    ti = pick(ti, NPRES)
+    cls, fixed, props, oracle = PRESENCE[ti]
+    flags = [f0, f1, f2, f3, f4][:len(props)]
+    inner = dict(fixed)
+    present = set()
+    for (name, value), f in zip(props, flags):
+        if f:
+            inner[name] = value
+            present.add(name)
+    got = _accepts(mk(cls, inner))
+    V.reached()
+    return got == oracle(present)
+
+
+def cc_marking_definition(has_type: bool, has_def: bool, has_ext: bool) -> bool:
+    """
+    post: _
+    """
+    inner = {"type": "marking-definition", "id": "marking-definition--x", "created": 1}
+    if has_type:
+        inner["definition_type"] = "statement"
+    if has_def:
+        inner["definition"] = {"statement": "s"}
+    if has_ext:
+        inner["extensions"] = {"extension-definition--x": {"extension_type": "property-extension"}}
+    got = _accepts(mk(stix2.v21.MarkingDefinition, inner))
+    V.reached()
+    # definition_type and definition are required unless the marking is defined by an extension
+    return got == ((has_type and has_def) or has_ext)
